@@ -1152,6 +1152,13 @@ func (u *Unit) execRange(st *State, x *ast.RangeStmt) *State {
 			u.loopFrame(ls, n, st, j, mods, u.loopEnv(st, scope, pos, nil), x.Pos(), true)
 		}
 		exit := head.clone()
+		for _, y := range ls.Exhausts {
+			t, err := u.trySpec(u.loopEnv(exit, scope, pos, nil), y.Expr)
+			if err != nil {
+				u.unsupported(x.Pos(), "exhausts %s: %v", y.Text, err)
+			}
+			exit.assume(t)
+		}
 		return u.joinBreaks(head, exit, fr)
 	}
 	u.unsupported(x.Pos(), "range over %v", xt)
